@@ -153,8 +153,9 @@ run_table(const struct tspec *s, int ti)
 {
     tb_built = false;
     for (int mode = 0; mode < 2; ++mode)
-        for (uint32_t addr = 0; addr <= FAM_MAXADDR; ++addr)
-            for (uint32_t n = 0; addr + n <= FAM_MAXADDR + 1; ++n) {
+        for (uint32_t rel = 0; rel <= FAM_MAXADDR; ++rel)
+            for (uint32_t n = 0; rel + n <= FAM_MAXADDR + 1; ++n) {
+                const uint32_t addr = fam_origin(s) + rel;
                 if (!mc_case("table#%d %s %s=(%u,%u)", ti, tspec_str(s), mode ? "foreach_in" : "block_read", addr, n))
                     continue;
                 if (!tb_built) {
